@@ -65,6 +65,9 @@ structure Cfg (α : Type) where
   maxDissolution : α
   maxTempChange : α
   x0 : List α               -- pData.composition[0]
+  effEnabled : Bool         -- matrixParameters.effectiveDiffusion.isEnabled
+  effOhm : List α           -- matrixParameters.effectiveDiffusion.ohmInterp (supersaturation abscissae, 0 … 1)
+  effVal : List α           -- matrixParameters.effectiveDiffusion.effDiffInterp (effective diffusion distance factors, 1 … 0)
 
 /-- the per-phase columns of one row of `PrecipitationData` -/
 structure PSlice (α : Type) where
@@ -281,14 +284,18 @@ def createLookup (T : α) (tab : List (TablePh α)) (s : St α) : St α :=
            lookEqA := tab.map (fun tp => [if tp.eqOK then tp.eqA else 0]),
            lookEqB := tab.map (fun tp => [if tp.eqOK then tp.eqB else 0]) }
 
+/-- `EffectiveDiffusionFunctions.__call__`: `np.interp(supersaturation, ohmInterp, effDiffInterp)` when enabled, else 1 -/
+def effOf (c : Cfg α) (Q : α) : α := if c.effEnabled then Grid.interp c.effOhm c.effVal Q else 1
+
 /-- `_singleGrowthBinary(p, Y)` -/
 def growthBinaryPh (c : Cfg α) (xComp0 D : α) (pc : PhaseCfg α) (ps : PhaseSt α) (an : PhaseAns α) : List α :=
   let xa := ps.xaT.headD []
   let xb := ps.xbT.headD []
   if ps.rdfIdx + 1 < xa.length then
     (List.range ps.grid.bounds.length).map (fun i =>
-      Gen.C12.growthBinary (an.kin.getD i 0) D (an.eff.getD i 0) xComp0 (xa.getD i 0) (xb.getD i 0)
-        c.sites.vmAlpha pc.vmBeta (ps.grid.bounds.getD i 0))
+      Gen.C12.growthBinary (an.kin.getD i 0) D
+        (effOf c (Gen.C12.superSat xComp0 (xa.getD i 0) (xb.getD i 0) c.sites.vmAlpha pc.vmBeta))
+        xComp0 (xa.getD i 0) (xb.getD i 0) c.sites.vmAlpha pc.vmBeta (ps.grid.bounds.getD i 0))
   else zerosL (ps.grid.bins + 1)
 
 def absS (x : α) : α := if x < 0 then -x else x
